@@ -1,5 +1,5 @@
 /-
-  C22 — proofs: `wordFields` meets the POSIX field-splitting specification on the `Clean` region,
+  C22 — proofs: `wordFields` meets the POSIX field-splitting specification (`partOk` words),
   plain words give one field, `expand.Literal` is quote removal when no unquoted backslash.
   Core Lean only.
 -/
@@ -127,19 +127,34 @@ theorem foldl_addPart (vs : List Bytes) (w : WS) :
     rw [List.foldl_cons, ih]
     simp [addPart]
 
+/-- The parts that double quotes without `$@` add to the current field: one per inner part, and
+    one empty part for `""`. -/
+def dblParts (env : Env) : List DPart → List FP
+  | [] => [⟨[], 1⟩]
+  | d :: ps => (d :: ps).map (fun d => (⟨dpartVal env d, 1⟩ : FP))
+
+theorem dblParts_ne_nil (env : Env) (ps : List DPart) : dblParts env ps ≠ [] := by
+  cases ps <;> simp [dblParts]
+
+theorem fieldJoin_dblParts (env : Env) (ps : List DPart) :
+    fieldJoin (dblParts env ps) = (ps.map (dpartVal env)).flatten := by
+  cases ps with
+  | nil => simp [dblParts, fieldJoin]
+  | cons d ps => exact fieldJoin_dvals (dpartVal env) (d :: ps)
+
 theorem partStep_dbl_gen (env : Env) (w : WS) (first : Bool) (ps : List DPart)
-    (h1 : ps ≠ [.at]) (h2 : ps ≠ [.star]) :
+    (h0 : ps ≠ []) (h1 : ps ≠ [.at]) (h2 : ps ≠ [.star]) :
     partStep env w first (.dbl ps) =
       { w with allowEmpty := true, cur := w.cur ++ ps.map (fun d => (⟨dpartVal env d, 1⟩ : FP)) } := by
   have : partStep env w first (.dbl ps) =
       (ps.map (dpartVal env)).foldl (fun w v => addPart w ⟨v, 1⟩) { w with allowEmpty := true } := by
-    match ps, h1, h2 with
-    | [], _, _ => rfl
-    | [.lit _], _, _ => rfl
-    | [.exp _], _, _ => rfl
-    | [.at], h1, _ => exact absurd rfl h1
-    | [.star], _, h2 => exact absurd rfl h2
-    | d :: e :: rest, _, _ => cases d <;> rfl
+    match ps, h0, h1, h2 with
+    | [], h0, _, _ => exact absurd rfl h0
+    | [.lit _], _, _, _ => rfl
+    | [.exp _], _, _, _ => rfl
+    | [.at], _, h1, _ => exact absurd rfl h1
+    | [.star], _, _, h2 => exact absurd rfl h2
+    | d :: e :: rest, _, _, _ => cases d <;> rfl
   rw [this, foldl_addPart, List.map_map]
   rfl
 
@@ -147,33 +162,54 @@ theorem partStep_dbl_star (env : Env) (w : WS) (first : Bool) :
     partStep env w first (.dbl [.star]) =
       { w with cur := w.cur ++ [(⟨dpartVal env .star, 1⟩ : FP)] } := rfl
 
+theorem partStep_dbl_nil (env : Env) (w : WS) (first : Bool) :
+    partStep env w first (.dbl []) =
+      { w with allowEmpty := true, cur := w.cur ++ [(⟨[], 1⟩ : FP)] } := rfl
+
 theorem partStep_dbl_noat (env : Env) (w : WS) (first : Bool) (ps : List DPart)
     (h : containsAt ps = false) :
     (partStep env w first (.dbl ps)).fields = w.fields ∧
-    (partStep env w first (.dbl ps)).cur = w.cur ++ ps.map (fun d => (⟨dpartVal env d, 1⟩ : FP)) ∧
-    (ps = [] → (partStep env w first (.dbl ps)).allowEmpty = true) ∧
-    ((partStep env w first (.dbl ps)).allowEmpty = true ∨
-      (partStep env w first (.dbl ps)).allowEmpty = w.allowEmpty) := by
+    (partStep env w first (.dbl ps)).cur = w.cur ++ dblParts env ps := by
   by_cases hs : ps = [.star]
   · subst hs
     rw [partStep_dbl_star]
-    simp
-  · have ha : ps ≠ [.at] := by
-      intro ha; subst ha; simp [containsAt] at h
-    rw [partStep_dbl_gen env w first ps ha hs]
-    simp
+    simp [dblParts]
+  · by_cases hn : ps = []
+    · subst hn
+      rw [partStep_dbl_nil]
+      simp [dblParts]
+    · have ha : ps ≠ [.at] := by
+        intro ha; subst ha; simp [containsAt] at h
+      rw [partStep_dbl_gen env w first ps hn ha hs]
+      cases ps with
+      | nil => exact absurd rfl hn
+      | cons d ps => simp [dblParts]
 
 /-! ## Words made of literals and quotes -/
+
+theorem partStep_lit_nil (env : Env) (w : WS) (first : Bool) :
+    partStep env w first (.lit []) = w := rfl
+
+theorem partStep_lit_ne (env : Env) (w : WS) (first : Bool) (s : Bytes) (hs : s ≠ []) :
+    partStep env w first (.lit s) = addPart w ⟨unbackslash s, 0⟩ := by
+  cases s with
+  | nil => exact absurd rfl hs
+  | cons b s => rfl
 
 theorem plain_step (env : Env) (w : WS) (first : Bool) (p : Part)
     (hp : plain p = true) (hok : partOk p = true) :
     (partStep env w first p).fields = w.fields ∧
     fieldJoin (partStep env w first p).cur = fieldJoin w.cur ++ posixLiteralVal env p ∧
-    ((partStep env w first p).allowEmpty = true ∨ (partStep env w first p).cur ≠ []) := by
+    (p ≠ .lit [] → (partStep env w first p).cur ≠ []) ∧
+    (w.cur ≠ [] → (partStep env w first p).cur ≠ []) := by
   cases p with
   | lit s =>
-    cases first <;>
-      simp [partStep, addPart, posixLiteralVal, fieldJoin]
+    by_cases hs : s = []
+    · subst hs
+      rw [partStep_lit_nil]
+      simp [posixLiteralVal, unbackslash]
+    · rw [partStep_lit_ne env w first s hs]
+      simp [addPart, posixLiteralVal, fieldJoin_append, fieldJoin_single]
   | sgl s =>
     simp [partStep, addPart, fieldJoin_append, fieldJoin_single, posixLiteralVal]
   | dbl ps =>
@@ -181,12 +217,13 @@ theorem plain_step (env : Env) (w : WS) (first : Bool) (p : Part)
     have hd : ps.all dpartOk = true := by
       simp only [partOk, Bool.and_eq_true] at hok
       exact hok.2
-    obtain ⟨h1, h2, h3, _⟩ := partStep_dbl_noat env w first ps hc
-    refine ⟨h1, ?_, ?_⟩
-    · rw [h2, fieldJoin_append, fieldJoin_dvals, dpartVals_ok env ps hd, posixLiteralVal_dbl]
-    · cases ps with
-      | nil => exact Or.inl (h3 rfl)
-      | cons d ps => right; rw [h2]; simp
+    obtain ⟨h1, h2⟩ := partStep_dbl_noat env w first ps hc
+    have hne : (partStep env w first (.dbl ps)).cur ≠ [] := by
+      rw [h2]
+      have := dblParts_ne_nil env ps
+      simp [this]
+    refine ⟨h1, ?_, fun _ => hne, fun _ => hne⟩
+    rw [h2, fieldJoin_append, fieldJoin_dblParts, dpartVals_ok env ps hd, posixLiteralVal_dbl]
   | exp v => simp [plain] at hp
   | «at» => simp [plain] at hp
   | star => simp [plain] at hp
@@ -196,41 +233,43 @@ theorem plain_loop (env : Env) : ∀ (parts : List Part) (w : WS) (first : Bool)
     (partsLoop env w first parts).fields = w.fields ∧
     fieldJoin (partsLoop env w first parts).cur =
       fieldJoin w.cur ++ (parts.map (posixLiteralVal env)).flatten ∧
-    ((w.allowEmpty = true ∨ w.cur ≠ []) ∨ parts ≠ [] →
-      ((partsLoop env w first parts).allowEmpty = true ∨ (partsLoop env w first parts).cur ≠ []))
+    (w.cur ≠ [] ∨ (∃ p ∈ parts, p ≠ Part.lit []) → (partsLoop env w first parts).cur ≠ [])
   | [], w, first, _, _ => by
     simp [partsLoop]
   | p :: ps, w, first, hp, hok => by
     simp only [List.all_cons, Bool.and_eq_true] at hp hok
-    obtain ⟨s1, s2, s3⟩ := plain_step env w first p hp.1 hok.1
+    obtain ⟨s1, s2, s3, s4⟩ := plain_step env w first p hp.1 hok.1
     obtain ⟨l1, l2, l3⟩ := plain_loop env ps (partStep env w first p) false hp.2 hok.2
     rw [partsLoop]
-    refine ⟨l1.trans s1, ?_, fun _ => l3 (Or.inl s3)⟩
-    rw [l2, s2, List.map_cons, List.flatten_cons, List.append_assoc]
+    refine ⟨l1.trans s1, ?_, ?_⟩
+    · rw [l2, s2, List.map_cons, List.flatten_cons, List.append_assoc]
+    · intro h
+      apply l3
+      rcases h with h | ⟨q, hq, hne⟩
+      · exact Or.inl (s4 h)
+      · rcases List.mem_cons.mp hq with rfl | hq'
+        · exact Or.inl (s3 hne)
+        · exact Or.inr ⟨q, hq', hne⟩
 
 theorem wordFields_finish (env : Env) (parts : List Part) (v : Bytes)
     (h1 : (partsLoop env WS.init true parts).fields = [])
     (h2 : fieldJoin (partsLoop env WS.init true parts).cur = v)
-    (h3 : (partsLoop env WS.init true parts).allowEmpty = true ∨
-      (partsLoop env WS.init true parts).cur ≠ []) :
+    (h3 : (partsLoop env WS.init true parts).cur ≠ []) :
     wordFields env parts = [v] := by
   unfold wordFields
   generalize partsLoop env WS.init true parts = wf at *
-  obtain ⟨f, c, ae⟩ := wf
+  obtain ⟨f, c, ae, wd⟩ := wf
   simp only at h1 h2 h3
   subst h1
   cases c with
-  | nil =>
-    simp only [ne_eq, not_true_eq_false, or_false] at h3
-    subst h3
-    simp [flush, ← h2]
-  | cons x c =>
-    simp [flush, ← h2]
+  | nil => exact absurd rfl h3
+  | cons x c => simp [flush, ← h2]
 
-/-- words made only of literals, single quotes and double quotes without `$@` (non-empty unquoted
-    literals, no NUL in double-quoted literals) give exactly one field, the concatenation of the
-    quote-removed parts, whatever IFS is -/
-theorem plain_one_field (env : Env) (parts : List Part) (hne : parts ≠ [])
+/-- words made only of literals, single quotes and double quotes without `$@` (no NUL in
+    double-quoted literals), not all of them empty unquoted literals, give exactly one field, the
+    concatenation of the quote-removed parts, whatever IFS is -/
+theorem plain_one_field (env : Env) (parts : List Part)
+    (hne : ∃ p ∈ parts, p ≠ Part.lit [])
     (hp : parts.all plain = true) (hok : parts.all partOk = true) :
     wordFields env parts = [(parts.map (posixLiteralVal env)).flatten] := by
   obtain ⟨l1, l2, l3⟩ := plain_loop env parts WS.init true hp hok
@@ -238,7 +277,7 @@ theorem plain_one_field (env : Env) (parts : List Part) (hne : parts ≠ [])
   rw [l2]
   rfl
 
-/-! ## Specification side of plain words -/
+/-! ## Specification side of double quotes without `$@` -/
 
 theorem dqItems_noat (env : Env) : ∀ (ps : List DPart) (a : Bytes), containsAt ps = false →
     dqItems env ps (some a) = [.quoted (a ++ (ps.map (dspecVal env)).flatten)]
@@ -272,63 +311,25 @@ theorem partItems_dbl_noat (env : Env) (ps : List DPart) (h : containsAt ps = fa
   rw [dqItems_noat env ps [] h]
   simp
 
-theorem plain_items_step (env : Env) (ifs : Str) (st : SS) (p : Part)
-    (hp : plain p = true) (hok : partOk p = true) :
-    (partItems env p).foldl (splitStep ifs) st =
-      { st with cur := some (st.cur.getD [] ++ posixLiteralVal env p), pend := false } := by
-  cases p with
-  | lit s =>
-    have hs : s ≠ [] := by
-      intro hs; subst hs; simp [partOk] at hok
-    have := unbackslash_ne_nil s hs
-    simp [partItems, splitStep, posixLiteralVal, this]
-  | sgl s => simp [partItems, splitStep, posixLiteralVal]
-  | dbl ps =>
-    have hc : containsAt ps = false := by simpa [plain] using hp
-    rw [partItems_dbl_noat env ps hc]
-    simp [splitStep]
-  | exp v => simp [plain] at hp
-  | «at» => simp [plain] at hp
-  | star => simp [plain] at hp
-
-theorem plain_items_loop (env : Env) (ifs : Str) : ∀ (ps : List Part) (p : Part) (st : SS),
-    (p :: ps).all plain = true → (p :: ps).all partOk = true →
-    ((p :: ps).flatMap (partItems env)).foldl (splitStep ifs) st =
-      { st with cur := some (st.cur.getD [] ++ ((p :: ps).map (posixLiteralVal env)).flatten),
-                pend := false }
-  | [], p, st, hp, hok => by
-    simp only [List.all_cons, List.all_nil, Bool.and_true] at hp hok
-    simp only [List.flatMap_cons, List.flatMap_nil, List.append_nil]
-    rw [plain_items_step env ifs st p hp hok]
-    simp
-  | q :: ps, p, st, hp, hok => by
-    rw [List.all_cons, Bool.and_eq_true] at hp hok
-    rw [List.flatMap_cons, List.foldl_append, plain_items_step env ifs st p hp.1 hok.1,
-      plain_items_loop env ifs ps q _ hp.2 hok.2]
-    simp [List.append_assoc]
-
-theorem posixFields_plain (env : Env) (parts : List Part) (hne : parts ≠ [])
-    (hp : parts.all plain = true) (hok : parts.all partOk = true) :
-    posixFields env parts = [(parts.map (posixLiteralVal env)).flatten] := by
-  cases parts with
-  | nil => exact absurd rfl hne
-  | cons p ps =>
-    unfold posixFields posixSplit
-    simp only
-    rw [plain_items_loop env env.ifs ps p SS.init hp hok]
-    simp [SS.init]
-
 /-! ## Simulation -/
 
-/-- Go state and specification state between two parts. -/
-def Rel (w : WS) (st : SS) : Prop :=
+/-- Go state and specification state between two parts: fields and current field. -/
+def Rel0 (w : WS) (st : SS) : Prop :=
   st.out = w.fields.map fieldJoin ∧
   st.cur = (if w.cur.isEmpty then none else some (fieldJoin w.cur))
 
+/-- ... and the "delimiter begun by IFS white space" flag, which the Go code only reads (and the
+    relation only constrains) while the current field is empty.  With an empty IFS it is never read. -/
+def Rel (ifs : Str) (w : WS) (st : SS) : Prop :=
+  Rel0 w st ∧ (w.cur = [] → ifs ≠ [] → st.pend = w.wsDelim)
+
 /-- ... and inside `splitLoop`, with the field being accumulated. -/
-def RelA (w : WS) (acc : Option Bytes) (st : SS) : Prop :=
+def RelA0 (w : WS) (acc : Option Bytes) (st : SS) : Prop :=
   st.out = w.fields.map fieldJoin ∧
   st.cur = (if w.cur.isEmpty && acc.isNone then none else some (fieldJoin w.cur ++ acc.getD []))
+
+def RelA (ifs : Str) (w : WS) (acc : Option Bytes) (st : SS) : Prop :=
+  RelA0 w acc st ∧ (w.cur = [] → acc = none → ifs ≠ [] → st.pend = w.wsDelim)
 
 /-- Something has been produced. -/
 def NE (w : WS) : Prop := w.fields ≠ [] ∨ w.cur ≠ []
@@ -345,11 +346,23 @@ theorem Le.trans {a b c : WS} (h1 : Le a b) (h2 : Le b c) : Le a c :=
   ⟨h2.1.trans h1.1, fun h => h2.2 (h1.2 h)⟩
 
 theorem le_flush (w : WS) : Le w (flush w) := by
-  obtain ⟨f, c, ae⟩ := w
+  obtain ⟨f, c, ae, wd⟩ := w
   cases c <;> simp [flush, Le, NE]
 
 theorem le_addPart (w : WS) (p : FP) : Le w (addPart w p) := by
   simp [addPart, Le, NE]
+
+theorem le_wsDelim (w : WS) (b : Bool) : Le w { w with wsDelim := b } := ⟨rfl, id⟩
+
+theorem le_delimit (ifs : Str) (w : WS) (r : Char) : Le w (delimit ifs w r) := by
+  unfold delimit
+  split
+  · exact Le.trans (le_flush w) (le_wsDelim _ _)
+  · split
+    · exact Le.refl w
+    · split
+      · exact le_wsDelim w false
+      · simp [Le, NE]
 
 theorem inv_le {w w' : WS} (hi : Inv w) (h : Le w w') : Inv w' := by
   intro ha
@@ -365,19 +378,22 @@ def endAcc (w : WS) : Option Bytes → WS
 
 theorem splitLoop_cons (ifs : Str) (w : WS) (acc : Option Bytes) (s : Sym) (rest : Str) :
     splitLoop ifs w acc (s :: rest) =
-      if ifsRune ifs s.r then splitLoop ifs (flush (endAcc w acc)) none rest
-      else splitLoop ifs w (some (acc.getD [] ++ s.bs)) rest := rfl
+      if ifsRune ifs s.r then splitLoop ifs (delimit ifs (endAcc w acc) s.r) none rest
+      else splitLoop ifs { w with wsDelim := false } (some (acc.getD [] ++ s.bs)) rest := rfl
 
-theorem relA_none (w : WS) (st : SS) : RelA w none st ↔ Rel w st := by
-  simp [RelA, Rel]
+theorem relA_none (ifs : Str) (w : WS) (st : SS) : RelA ifs w none st ↔ Rel ifs w st := by
+  simp [RelA, Rel, RelA0, Rel0]
+
+theorem rel_of_rel0 (ifs : Str) {w : WS} {st : SS} (h : Rel0 w st) (hc : w.cur ≠ []) :
+    Rel ifs w st := ⟨h, fun h0 => absurd h0 hc⟩
 
 /-- Appending parts to the current field. -/
-theorem rel_append {w : WS} {st : SS} (h : Rel w st) (w' : WS) (st' : SS) (l : List FP)
+theorem rel0_append {w : WS} {st : SS} (h : Rel0 w st) (w' : WS) (st' : SS) (l : List FP)
     (hl : l ≠ []) (hf : w'.fields = w.fields) (hc : w'.cur = w.cur ++ l)
     (ho : st'.out = st.out) (hcur : st'.cur = some (st.cur.getD [] ++ fieldJoin l)) :
-    Rel w' st' := by
-  obtain ⟨f, c, ae⟩ := w
-  obtain ⟨f', c', ae'⟩ := w'
+    Rel0 w' st' := by
+  obtain ⟨f, c, ae, wd⟩ := w
+  obtain ⟨f', c', ae', wd'⟩ := w'
   obtain ⟨o, cu, pe⟩ := st
   obtain ⟨o', cu', pe'⟩ := st'
   obtain ⟨h1, h2⟩ := h
@@ -387,53 +403,62 @@ theorem rel_append {w : WS} {st : SS} (h : Rel w st) (w' : WS) (st' : SS) (l : L
   | nil =>
     cases l with
     | nil => exact absurd rfl hl
-    | cons x l => simp [Rel]
+    | cons x l => simp [Rel0]
   | cons y c =>
     have : fieldJoin (y :: (c ++ l)) = fieldJoin (y :: c) ++ fieldJoin l :=
       fieldJoin_append (y :: c) l
-    simp [Rel, this]
+    simp [Rel0, this]
 
-theorem rel_addPart {w : WS} {st : SS} (h : Rel w st) (st' : SS) (b : Bytes) (q : Nat)
+theorem rel_append (ifs : Str) {w : WS} {st : SS} (h : Rel0 w st) (w' : WS) (st' : SS) (l : List FP)
+    (hl : l ≠ []) (hf : w'.fields = w.fields) (hc : w'.cur = w.cur ++ l)
+    (ho : st'.out = st.out) (hcur : st'.cur = some (st.cur.getD [] ++ fieldJoin l)) :
+    Rel ifs w' st' :=
+  rel_of_rel0 ifs (rel0_append h w' st' l hl hf hc ho hcur) (by rw [hc]; simp [hl])
+
+theorem rel_addPart (ifs : Str) {w : WS} {st : SS} (h : Rel0 w st) (st' : SS) (b : Bytes) (q : Nat)
     (ho : st'.out = st.out) (hcur : st'.cur = some (st.cur.getD [] ++ b)) :
-    Rel (addPart w ⟨b, q⟩) st' :=
-  rel_append h _ st' [⟨b, q⟩] (by simp) rfl rfl ho (by rw [hcur, fieldJoin_single])
+    Rel ifs (addPart w ⟨b, q⟩) st' :=
+  rel_append ifs h _ st' [⟨b, q⟩] (by simp) rfl rfl ho (by rw [hcur, fieldJoin_single])
 
 /-- Ending the current field. -/
-theorem rel_flush {w : WS} {st : SS} (h : Rel w st) (st' : SS)
+theorem rel0_flush {w : WS} {st : SS} (h : Rel0 w st) (st' : SS)
     (ho : st'.out = st.out ++ st.cur.toList) (hcur : st'.cur = none) :
-    Rel (flush w) st' := by
-  obtain ⟨f, c, ae⟩ := w
+    Rel0 (flush w) st' := by
+  obtain ⟨f, c, ae, wd⟩ := w
   obtain ⟨o, cu, pe⟩ := st
   obtain ⟨o', cu', pe'⟩ := st'
   obtain ⟨h1, h2⟩ := h
   simp only at ho hcur h1 h2
   subst ho hcur h1 h2
   cases c with
-  | nil => simp [Rel, flush]
-  | cons y c => simp [Rel, flush]
+  | nil => simp [Rel0, flush]
+  | cons y c => simp [Rel0, flush]
 
-theorem relA_end {w : WS} {acc : Option Bytes} {st : SS} (h : RelA w acc st) :
-    Rel (endAcc w acc) st := by
+theorem relA_end (ifs : Str) {w : WS} {acc : Option Bytes} {st : SS} (h : RelA ifs w acc st) :
+    Rel ifs (endAcc w acc) st := by
   cases acc with
-  | none => exact (relA_none w st).mp h
+  | none => exact (relA_none ifs w st).mp h
   | some b =>
-    obtain ⟨f, c, ae⟩ := w
-    obtain ⟨o, cu, pe⟩ := st
-    obtain ⟨h1, h2⟩ := h
-    simp only at h1 h2
-    subst h1 h2
-    simp [Rel, endAcc, addPart, fieldJoin_append, fieldJoin_single]
+    apply rel_of_rel0
+    · obtain ⟨f, c, ae, wd⟩ := w
+      obtain ⟨o, cu, pe⟩ := st
+      obtain ⟨⟨h1, h2⟩, _⟩ := h
+      simp only at h1 h2
+      subst h1 h2
+      simp [Rel0, endAcc, addPart, fieldJoin_append, fieldJoin_single]
+    · simp [endAcc, addPart]
 
-theorem relA_push {w : WS} {acc : Option Bytes} {st : SS} (h : RelA w acc st) (st' : SS)
-    (x : Bytes) (ho : st'.out = st.out) (hcur : st'.cur = some (st.cur.getD [] ++ x)) :
-    RelA w (some (acc.getD [] ++ x)) st' := by
-  obtain ⟨f, c, ae⟩ := w
+theorem relA_push (ifs : Str) {w : WS} {acc : Option Bytes} {st : SS} (h : RelA ifs w acc st)
+    (st' : SS) (x : Bytes) (ho : st'.out = st.out) (hcur : st'.cur = some (st.cur.getD [] ++ x)) :
+    RelA ifs { w with wsDelim := false } (some (acc.getD [] ++ x)) st' := by
+  refine ⟨?_, fun _ h0 => by simp at h0⟩
+  obtain ⟨f, c, ae, wd⟩ := w
   obtain ⟨o, cu, pe⟩ := st
   obtain ⟨o', cu', pe'⟩ := st'
-  obtain ⟨h1, h2⟩ := h
+  obtain ⟨⟨h1, h2⟩, _⟩ := h
   simp only at ho hcur h1 h2
   subst ho hcur h1 h2
-  cases c <;> cases acc <;> simp [RelA, fieldJoin]
+  cases c <;> cases acc <;> simp [RelA0, fieldJoin]
 
 /-! ### Steps of the specification -/
 
@@ -447,53 +472,48 @@ theorem step_quoted (ifs : Str) (st : SS) (b : Bytes) :
     (splitStep ifs st (.quoted b)).cur = some (st.cur.getD [] ++ b) := by
   simp [splitStep]
 
-theorem step_u_ifs (ifs : Str) (st : SS) (s : Sym) (hi : ifsRune ifs s.r = true)
-    (hb : (ifsRune ifs s.r && !wsRune s.r && st.cur.isNone && !st.pend) = false) :
-    (splitStep ifs st (.u s)).out = st.out ++ st.cur.toList ∧
-    (splitStep ifs st (.u s)).cur = none := by
-  obtain ⟨o, c, p⟩ := st
-  simp only [splitStep, hi]
-  cases c <;> cases p <;> cases hw : wsRune s.r <;> simp_all
-
 theorem step_u_non (ifs : Str) (st : SS) (s : Sym) (hi : ifsRune ifs s.r = false) :
     (splitStep ifs st (.u s)).out = st.out ∧
     (splitStep ifs st (.u s)).cur = some (st.cur.getD [] ++ s.bs) := by
   simp [splitStep, hi]
 
-theorem noEmptyDelim_cons (ifs : Str) (st : SS) (it : Item) (rest : List Item) :
-    noEmptyDelim ifs st (it :: rest) =
-      (!(match it with
-          | .u s => ifsRune ifs s.r && !wsRune s.r && st.cur.isNone && !st.pend
-          | _ => false) && noEmptyDelim ifs (splitStep ifs st it) rest) := rfl
-
-theorem noEmptyDelim_append (ifs : Str) : ∀ (a b : List Item) (st : SS),
-    noEmptyDelim ifs st (a ++ b) =
-      (noEmptyDelim ifs st a && noEmptyDelim ifs (a.foldl (splitStep ifs) st) b)
-  | [], b, st => by simp [noEmptyDelim]
-  | it :: a, b, st => by
-    rw [List.cons_append, noEmptyDelim_cons, noEmptyDelim_cons, noEmptyDelim_append ifs a b,
-      List.foldl_cons, Bool.and_assoc]
+/-- `delimit` at an IFS character is the specification's step for that character. -/
+theorem rel_delimit (ifs : Str) {w : WS} {st : SS} (h : Rel ifs w st) (s : Sym)
+    (hi : ifsRune ifs s.r = true) :
+    Rel ifs (delimit ifs w s.r) (splitStep ifs st (.u s)) := by
+  have hne : ifs ≠ [] := by
+    intro h0; subst h0; simp [ifsRune] at hi
+  obtain ⟨f, c, ae, wd⟩ := w
+  obtain ⟨o, cu, pe⟩ := st
+  obtain ⟨⟨h1, h2⟩, h3⟩ := h
+  simp only at h1 h2 h3
+  subst h1 h2
+  cases c with
+  | nil =>
+    have hp := h3 rfl hne
+    subst hp
+    cases hw : wsRune s.r <;> cases pe <;>
+      simp [delimit, splitStep, ifsWs, hi, hw, Rel, Rel0, fieldJoin]
+  | cons y c =>
+    cases hw : wsRune s.r <;>
+      simp [delimit, flush, splitStep, ifsWs, hi, hw, Rel, Rel0]
 
 /-! ### `splitAdd` -/
 
 theorem splitLoop_sim (ifs : Str) : ∀ (val : Str) (w : WS) (acc : Option Bytes) (st : SS),
-    RelA w acc st → noEmptyDelim ifs st (val.map .u) = true →
-    RelA (splitLoop ifs w acc val).1 (splitLoop ifs w acc val).2
+    RelA ifs w acc st →
+    RelA ifs (splitLoop ifs w acc val).1 (splitLoop ifs w acc val).2
       ((val.map .u).foldl (splitStep ifs) st)
-  | [], w, acc, st, h, _ => by simpa [splitLoop] using h
-  | s :: rest, w, acc, st, h, hd => by
-    rw [List.map_cons, noEmptyDelim_cons, Bool.and_eq_true] at hd
-    obtain ⟨hb, hd⟩ := hd
-    simp only [Bool.not_eq_true'] at hb
+  | [], w, acc, st, h => by simpa [splitLoop] using h
+  | s :: rest, w, acc, st, h => by
     rw [List.map_cons, List.foldl_cons, splitLoop_cons]
     by_cases hi : ifsRune ifs s.r = true
     · simp only [hi, if_true]
-      obtain ⟨s1, s2⟩ := step_u_ifs ifs st s hi hb
       exact splitLoop_sim ifs rest _ none _
-        ((relA_none _ _).mpr (rel_flush (relA_end h) _ s1 s2)) hd
+        ((relA_none _ _ _).mpr (rel_delimit ifs (relA_end ifs h) s hi))
     · simp only [hi, Bool.false_eq_true, if_false]
       obtain ⟨s1, s2⟩ := step_u_non ifs st s (by simpa using hi)
-      exact splitLoop_sim ifs rest _ _ _ (relA_push h _ _ s1 s2) hd
+      exact splitLoop_sim ifs rest _ _ _ (relA_push ifs h _ _ s1 s2)
 
 theorem le_splitLoop (ifs : Str) : ∀ (val : Str) (w : WS) (acc : Option Bytes),
     Le w (splitLoop ifs w acc val).1
@@ -503,12 +523,12 @@ theorem le_splitLoop (ifs : Str) : ∀ (val : Str) (w : WS) (acc : Option Bytes)
     by_cases hi : ifsRune ifs s.r = true
     · simp only [hi, if_true]
       refine Le.trans ?_ (le_splitLoop ifs rest _ none)
-      refine Le.trans ?_ (le_flush _)
+      refine Le.trans ?_ (le_delimit ifs _ _)
       cases acc with
       | none => exact Le.refl w
       | some b => exact le_addPart w _
     · simp only [hi, Bool.false_eq_true, if_false]
-      exact le_splitLoop ifs rest _ _
+      exact Le.trans (le_wsDelim w false) (le_splitLoop ifs rest _ _)
 
 theorem splitAdd_eq (ifs : Str) (w : WS) (val : Str) :
     splitAdd ifs w val =
@@ -517,11 +537,10 @@ theorem splitAdd_eq (ifs : Str) (w : WS) (val : Str) :
   cases h : splitLoop ifs w none val with
   | mk w1 a => cases a <;> rfl
 
-theorem splitAdd_sim (ifs : Str) (val : Str) (w : WS) (st : SS)
-    (h : Rel w st) (hd : noEmptyDelim ifs st (val.map .u) = true) :
-    Rel (splitAdd ifs w val) ((val.map .u).foldl (splitStep ifs) st) := by
+theorem splitAdd_sim (ifs : Str) (val : Str) (w : WS) (st : SS) (h : Rel ifs w st) :
+    Rel ifs (splitAdd ifs w val) ((val.map .u).foldl (splitStep ifs) st) := by
   rw [splitAdd_eq]
-  exact relA_end (splitLoop_sim ifs val w none st ((relA_none _ _).mpr h) hd)
+  exact relA_end ifs (splitLoop_sim ifs val w none st ((relA_none _ _ _).mpr h))
 
 theorem le_splitAdd (ifs : Str) (val : Str) (w : WS) : Le w (splitAdd ifs w val) := by
   rw [splitAdd_eq]
@@ -532,50 +551,77 @@ theorem le_splitAdd (ifs : Str) (val : Str) (w : WS) : Le w (splitAdd ifs w val)
 
 /-! ### Unquoted `$@` / `$*` -/
 
-def uRest (l : List Str) : List Item := l.flatMap (fun p => .brk :: p.map .u)
+/-- What separates two positional parameters: the first IFS character, or a break. -/
+def sepItem (ifs : Str) : Item :=
+  match ifs with
+  | [] => .brk
+  | sep :: _ => .u sep
 
-theorem unquotedElems_cons : ∀ (rest : List Str) (p : Str),
-    unquotedElems (p :: rest) = p.map .u ++ uRest rest
+def sepStep (ifs : Str) (w : WS) : WS :=
+  match ifs with
+  | [] => flush w
+  | sep :: _ => delimit ifs w sep.r
+
+def uRest (ifs : Str) (l : List Str) : List Item := l.flatMap (fun p => sepItem ifs :: p.map .u)
+
+theorem unquotedElems_cons (ifs : Str) : ∀ (rest : List Str) (p : Str),
+    unquotedElems ifs (p :: rest) = p.map .u ++ uRest ifs rest
   | [], p => by simp [unquotedElems, uRest]
   | q :: rest, p => by
-    rw [unquotedElems, unquotedElems_cons rest q]
-    simp [uRest]
+    have ih := unquotedElems_cons ifs rest q
+    cases ifs <;>
+      (rw [unquotedElems, ih]; simp [uRest, sepItem])
+
+theorem addUnq_false_cons (ifs : Str) (w : WS) (e : Str) (rest : List Str) :
+    addUnquotedElems ifs w false (e :: rest) =
+      addUnquotedElems ifs (splitAdd ifs (sepStep ifs w) e) false rest := by
+  cases ifs <;> rfl
+
+theorem addUnq_true_cons (ifs : Str) (w : WS) (e : Str) (rest : List Str) :
+    addUnquotedElems ifs w true (e :: rest) =
+      addUnquotedElems ifs (splitAdd ifs w e) false rest := rfl
+
+theorem rel_sep (ifs : Str) {w : WS} {st : SS} (h : Rel ifs w st) :
+    Rel ifs (sepStep ifs w) (splitStep ifs st (sepItem ifs)) := by
+  cases ifs with
+  | nil =>
+    obtain ⟨b1, b2⟩ := step_brk [] st
+    exact ⟨rel0_flush h.1 _ b1 b2, fun _ h0 => absurd rfl h0⟩
+  | cons sep t =>
+    exact rel_delimit (sep :: t) h sep (by simp [ifsRune])
+
+theorem le_sep (ifs : Str) (w : WS) : Le w (sepStep ifs w) := by
+  cases ifs with
+  | nil => exact le_flush w
+  | cons sep t => exact le_delimit _ w _
 
 theorem unq_false_sim (ifs : Str) : ∀ (rest : List Str) (w : WS) (st : SS),
-    Rel w st → noEmptyDelim ifs st (uRest rest) = true →
-    Rel (addUnquotedElems ifs w false rest) ((uRest rest).foldl (splitStep ifs) st)
-  | [], w, st, h, _ => by simpa [addUnquotedElems, uRest] using h
-  | p :: rest, w, st, h, hd => by
-    have e : uRest (p :: rest) = .brk :: (p.map .u ++ uRest rest) := by simp [uRest]
-    rw [e, noEmptyDelim_cons, noEmptyDelim_append, Bool.and_eq_true, Bool.and_eq_true] at hd
-    rw [e, List.foldl_cons, List.foldl_append, addUnquotedElems]
-    obtain ⟨b1, b2⟩ := step_brk ifs st
-    have h1 : Rel (flush w) (splitStep ifs st .brk) := rel_flush h _ b1 b2
-    have h2 := splitAdd_sim ifs p _ _ h1 hd.2.1
-    simp only [Bool.false_eq_true, if_false]
-    exact unq_false_sim ifs rest _ _ h2 hd.2.2
+    Rel ifs w st →
+    Rel ifs (addUnquotedElems ifs w false rest) ((uRest ifs rest).foldl (splitStep ifs) st)
+  | [], w, st, h => by simpa [addUnquotedElems, uRest] using h
+  | p :: rest, w, st, h => by
+    have e : uRest ifs (p :: rest) = sepItem ifs :: (p.map .u ++ uRest ifs rest) := by simp [uRest]
+    rw [e, List.foldl_cons, List.foldl_append, addUnq_false_cons]
+    exact unq_false_sim ifs rest _ _ (splitAdd_sim ifs p _ _ (rel_sep ifs h))
 
-theorem unq_sim (ifs : Str) (params : List Str) (w : WS) (st : SS)
-    (h : Rel w st) (hd : noEmptyDelim ifs st (unquotedElems params) = true) :
-    Rel (addUnquotedElems ifs w true params) ((unquotedElems params).foldl (splitStep ifs) st) := by
+theorem unq_sim (ifs : Str) (params : List Str) (w : WS) (st : SS) (h : Rel ifs w st) :
+    Rel ifs (addUnquotedElems ifs w true params)
+      ((unquotedElems ifs params).foldl (splitStep ifs) st) := by
   cases params with
   | nil => simpa [addUnquotedElems, unquotedElems] using h
   | cons p rest =>
-    rw [unquotedElems_cons, noEmptyDelim_append, Bool.and_eq_true] at hd
-    rw [unquotedElems_cons, List.foldl_append, addUnquotedElems]
-    simp only [if_true]
-    exact unq_false_sim ifs rest _ _ (splitAdd_sim ifs p _ _ h hd.1) hd.2
+    rw [unquotedElems_cons, List.foldl_append, addUnq_true_cons]
+    exact unq_false_sim ifs rest _ _ (splitAdd_sim ifs p _ _ h)
 
 theorem le_addUnq (ifs : Str) : ∀ (params : List Str) (w : WS) (first : Bool),
     Le w (addUnquotedElems ifs w first params)
   | [], w, first => by simpa [addUnquotedElems] using Le.refl w
   | p :: rest, w, first => by
-    rw [addUnquotedElems]
-    refine Le.trans ?_ (le_addUnq ifs rest _ false)
-    refine Le.trans ?_ (le_splitAdd ifs p _)
     cases first
-    · exact le_flush w
-    · exact Le.refl w
+    · rw [addUnq_false_cons]
+      exact Le.trans (Le.trans (le_sep ifs w) (le_splitAdd ifs p _)) (le_addUnq ifs rest _ false)
+    · rw [addUnq_true_cons]
+      exact Le.trans (le_splitAdd ifs p _) (le_addUnq ifs rest _ false)
 
 /-! ### `"$@"` -/
 
@@ -598,20 +644,21 @@ theorem partItems_dblat (env : Env) :
         dqItems env [] (atItems none (env.params.map strBytes)).2 := by
   simp [partItems, containsAt, dqItems]
 
+/-- every `flush` between two elements is followed by an `addPart`: one step -/
 theorem q_false_sim (ifs : Str) : ∀ (rest : List Bytes) (w : WS) (st : SS),
-    Rel w st → Rel (addQuotedElems w false rest) ((qRest rest).foldl (splitStep ifs) st)
+    Rel ifs w st → Rel ifs (addQuotedElems w false rest) ((qRest rest).foldl (splitStep ifs) st)
   | [], w, st, h => by simpa [addQuotedElems, qRest] using h
   | q :: rest, w, st, h => by
     have e : qRest (q :: rest) = .brk :: .quoted q :: qRest rest := by simp [qRest]
     rw [e, List.foldl_cons, List.foldl_cons, addQuotedElems]
     obtain ⟨b1, b2⟩ := step_brk ifs st
-    have h1 : Rel (flush w) (splitStep ifs st .brk) := rel_flush h _ b1 b2
+    have h1 : Rel0 (flush w) (splitStep ifs st .brk) := rel0_flush h.1 _ b1 b2
     obtain ⟨c1, c2⟩ := step_quoted ifs (splitStep ifs st .brk) q
     simp only [Bool.false_eq_true, if_false]
-    exact q_false_sim ifs rest _ _ (rel_addPart h1 _ q 1 c1 c2)
+    exact q_false_sim ifs rest _ _ (rel_addPart ifs h1 _ q 1 c1 c2)
 
-theorem dblat_sim (env : Env) (w : WS) (st : SS) (h : Rel w st) :
-    Rel (addQuotedElems w true (env.params.map strBytes))
+theorem dblat_sim (env : Env) (w : WS) (st : SS) (h : Rel env.ifs w st) :
+    Rel env.ifs (addQuotedElems w true (env.params.map strBytes))
       ((partItems env (.dbl [.at])).foldl (splitStep env.ifs) st) := by
   rw [partItems_dblat]
   cases env.params.map strBytes with
@@ -620,7 +667,7 @@ theorem dblat_sim (env : Env) (w : WS) (st : SS) (h : Rel w st) :
     rw [atFull_cons, List.foldl_cons, addQuotedElems]
     obtain ⟨c1, c2⟩ := step_quoted env.ifs st p
     simp only [if_true]
-    exact q_false_sim env.ifs rest _ _ (rel_addPart h _ p 1 c1 c2)
+    exact q_false_sim env.ifs rest _ _ (rel_addPart env.ifs h.1 _ p 1 c1 c2)
 
 theorem le_addQ : ∀ (es : List Bytes) (w : WS) (first : Bool), Le w (addQuotedElems w first es)
   | [], w, first => by simpa [addQuotedElems] using Le.refl w
@@ -635,27 +682,25 @@ theorem le_addQ : ∀ (es : List Bytes) (w : WS) (first : Bool), Le w (addQuoted
 /-! ### One part -/
 
 theorem part_sim (env : Env) (w : WS) (st : SS) (first : Bool) (p : Part)
-    (hr : Rel w st) (hi : Inv w) (hok : partOk p = true) (hne : p ≠ .dbl [])
-    (hd : noEmptyDelim env.ifs st (partItems env p) = true) :
-    Rel (partStep env w first p) ((partItems env p).foldl (splitStep env.ifs) st) ∧
+    (hr : Rel env.ifs w st) (hi : Inv w) (hok : partOk p = true) :
+    Rel env.ifs (partStep env w first p) ((partItems env p).foldl (splitStep env.ifs) st) ∧
     Inv (partStep env w first p) := by
   cases p with
   | lit s =>
-    have hs : s ≠ [] := by
-      intro hs; subst hs; simp [partOk] at hok
-    have hu := unbackslash_ne_nil s hs
-    have hst : (partItems env (.lit s)).foldl (splitStep env.ifs) st =
-        { st with cur := some (st.cur.getD [] ++ unbackslash s), pend := false } := by
-      simp [partItems, splitStep, hu]
-    rw [hst]
-    cases first
-    · exact ⟨rel_append hr _ _ [⟨unbackslash s, 0⟩] (by simp) rfl rfl rfl
-        (by simp [fieldJoin]), inv_of_cur _ (by simp [partStep, addPart])⟩
-    · exact ⟨rel_append hr _ _ [⟨[], 3⟩, ⟨unbackslash s, 0⟩] (by simp) rfl
-        (by simp [partStep, addPart]) rfl
-        (by simp [fieldJoin]), inv_of_cur _ (by simp [partStep, addPart])⟩
+    by_cases hs : s = []
+    · subst hs
+      have hst : (partItems env (.lit [])).foldl (splitStep env.ifs) st = st := by
+        simp [partItems, unbackslash, splitStep]
+      rw [hst, partStep_lit_nil]
+      exact ⟨hr, hi⟩
+    · have hu := unbackslash_ne_nil s hs
+      have hst : (partItems env (.lit s)).foldl (splitStep env.ifs) st =
+          { st with cur := some (st.cur.getD [] ++ unbackslash s), pend := false } := by
+        simp [partItems, splitStep, hu]
+      rw [hst, partStep_lit_ne env w first s hs]
+      exact ⟨rel_addPart env.ifs hr.1 _ _ 0 rfl rfl, inv_of_cur _ (by simp [addPart])⟩
   | sgl s =>
-    exact ⟨rel_append hr _ _ [⟨s, 3⟩] (by simp) rfl rfl rfl
+    exact ⟨rel_append env.ifs hr.1 _ _ [⟨s, 3⟩] (by simp) rfl rfl rfl
         (by simp [fieldJoin, partItems, splitStep]), inv_of_cur _ (by simp [partStep, addPart])⟩
   | dbl ps =>
     simp only [partOk, Bool.and_eq_true, Bool.or_eq_true, Bool.not_eq_true', beq_iff_eq] at hok
@@ -667,51 +712,42 @@ theorem part_sim (env : Env) (w : WS) (st : SS) (first : Bool) (p : Part)
         cases hat with
         | inl h => exact h
         | inr h => exact absurd h ha
-      have hps : ps ≠ [] := fun h => hne (by rw [h])
-      obtain ⟨h1, h2, _, _⟩ := partStep_dbl_noat env w first ps hc
-      have hl : ps.map (fun d => (⟨dpartVal env d, 1⟩ : FP)) ≠ [] := by
-        cases ps with
-        | nil => exact absurd rfl hps
-        | cons d ps => simp
-      refine ⟨rel_append hr _ _ _ hl h1 h2 ?_ ?_, inv_of_cur _ ?_⟩
+      obtain ⟨h1, h2⟩ := partStep_dbl_noat env w first ps hc
+      have hl := dblParts_ne_nil env ps
+      refine ⟨rel_append env.ifs hr.1 _ _ _ hl h1 h2 ?_ ?_, inv_of_cur _ ?_⟩
       · rw [partItems_dbl_noat env ps hc]; simp [splitStep]
-      · rw [partItems_dbl_noat env ps hc, fieldJoin_dvals, dpartVals_ok env ps hdp,
+      · rw [partItems_dbl_noat env ps hc, fieldJoin_dblParts, dpartVals_ok env ps hdp,
           posixLiteralVal_dbl]
         simp [splitStep]
       · rw [h2]
-        cases ps with
-        | nil => exact absurd rfl hps
-        | cons d ps => simp
+        simp [hl]
   | exp v =>
-    exact ⟨splitAdd_sim env.ifs v w st hr hd, inv_le hi (le_splitAdd env.ifs v w)⟩
+    exact ⟨splitAdd_sim env.ifs v w st hr, inv_le hi (le_splitAdd env.ifs v w)⟩
   | «at» =>
-    exact ⟨unq_sim env.ifs env.params w st hr hd, inv_le hi (le_addUnq env.ifs _ w true)⟩
+    exact ⟨unq_sim env.ifs env.params w st hr, inv_le hi (le_addUnq env.ifs _ w true)⟩
   | star =>
-    exact ⟨unq_sim env.ifs env.params w st hr hd, inv_le hi (le_addUnq env.ifs _ w true)⟩
+    exact ⟨unq_sim env.ifs env.params w st hr, inv_le hi (le_addUnq env.ifs _ w true)⟩
 
 /-! ### The whole word -/
 
 theorem parts_sim (env : Env) : ∀ (parts : List Part) (w : WS) (st : SS) (first : Bool),
-    Rel w st → Inv w → (∀ p ∈ parts, partOk p = true ∧ p ≠ .dbl []) →
-    noEmptyDelim env.ifs st (parts.flatMap (partItems env)) = true →
-    Rel (partsLoop env w first parts)
+    Rel env.ifs w st → Inv w → (∀ p ∈ parts, partOk p = true) →
+    Rel env.ifs (partsLoop env w first parts)
       ((parts.flatMap (partItems env)).foldl (splitStep env.ifs) st) ∧
     Inv (partsLoop env w first parts)
-  | [], w, st, first, hr, hi, _, _ => by
+  | [], w, st, first, hr, hi, _ => by
     simpa [partsLoop] using ⟨hr, hi⟩
-  | p :: ps, w, st, first, hr, hi, hall, hd => by
-    rw [List.flatMap_cons, noEmptyDelim_append, Bool.and_eq_true] at hd
+  | p :: ps, w, st, first, hr, hi, hall => by
     rw [List.flatMap_cons, List.foldl_append, partsLoop]
-    obtain ⟨hp1, hp2⟩ := hall p (by simp)
-    obtain ⟨r1, i1⟩ := part_sim env w st first p hr hi hp1 hp2 hd.1
-    exact parts_sim env ps _ _ false r1 i1 (fun q hq => hall q (by simp [hq])) hd.2
+    obtain ⟨r1, i1⟩ := part_sim env w st first p hr hi (hall p (by simp))
+    exact parts_sim env ps _ _ false r1 i1 (fun q hq => hall q (by simp [hq]))
 
 theorem wordFields_of_rel (env : Env) (parts : List Part) (st : SS)
-    (hr : Rel (partsLoop env WS.init true parts) st) (hi : Inv (partsLoop env WS.init true parts)) :
+    (hr : Rel0 (partsLoop env WS.init true parts) st) (hi : Inv (partsLoop env WS.init true parts)) :
     wordFields env parts = (match st.cur with | some b => st.out ++ [b] | none => st.out) := by
   unfold wordFields
   generalize partsLoop env WS.init true parts = wf at *
-  obtain ⟨f, c, ae⟩ := wf
+  obtain ⟨f, c, ae, wd⟩ := wf
   obtain ⟨o, cu, pe⟩ := st
   obtain ⟨h1, h2⟩ := hr
   simp only at h1 h2
@@ -726,25 +762,15 @@ theorem wordFields_of_rel (env : Env) (parts : List Part) (st : SS)
       simp [flush, this]
   | cons x c => simp [flush]
 
-/-- main -/
-theorem split_spec_partial' (env : Env) (parts : List Part) (hc : Clean env parts) :
+/-- full theorem now: the only hypothesis is partOk (`$@` alone in its double quotes; no NUL in
+    double-quoted literal text) -/
+theorem split_spec' (env : Env) (parts : List Part) (hok : parts.all partOk = true) :
     wordFields env parts = posixFields env parts := by
-  obtain ⟨hok, hempty, hd⟩ := hc
-  by_cases he : parts.contains (.dbl []) = true
-  · have hp := hempty he
-    have hne : parts ≠ [] := by
-      intro h; subst h; simp at he
-    rw [plain_one_field env parts hne hp hok, posixFields_plain env parts hne hp hok]
-  · have hall : ∀ p ∈ parts, partOk p = true ∧ p ≠ .dbl [] := by
-      intro p hp
-      refine ⟨List.all_eq_true.mp hok p hp, ?_⟩
-      intro h
-      subst h
-      exact he (List.contains_iff_mem.mpr hp)
-    have hr0 : Rel WS.init SS.init := by simp [Rel, WS.init, SS.init]
-    have hi0 : Inv WS.init := by simp [Inv, WS.init]
-    obtain ⟨r, i⟩ := parts_sim env parts WS.init SS.init true hr0 hi0 hall hd
-    rw [wordFields_of_rel env parts _ r i]
-    rfl
+  have hall : ∀ p ∈ parts, partOk p = true := fun p hp => List.all_eq_true.mp hok p hp
+  have hr0 : Rel env.ifs WS.init SS.init := by simp [Rel, Rel0, WS.init, SS.init]
+  have hi0 : Inv WS.init := by simp [Inv, WS.init]
+  obtain ⟨r, i⟩ := parts_sim env parts WS.init SS.init true hr0 hi0 hall
+  rw [wordFields_of_rel env parts _ r.1 i]
+  rfl
 
 end ShVerif.C22
